@@ -6,32 +6,63 @@ import FerrousSpec.Model.ZSet
 namespace Ferrous.ZSet
 open Ferrous
 
-/-! ### Scores -/
+/-! ### Scores (`lt` is f64 `<`, `eqv` is f64 `==`: the two zeros are equal but distinct values) -/
+
+theorem Score.lt_iff {a b : Score} :
+    a.lt b = true ↔ (a.cls < b.cls ∨ (a.cls = b.cls ∧ a.mag < b.mag)) := by
+  simp [Score.lt]
+
+theorem Score.lt_false_iff {a b : Score} :
+    a.lt b = false ↔ ¬ (a.cls < b.cls ∨ (a.cls = b.cls ∧ a.mag < b.mag)) := by
+  rw [← Score.lt_iff]; simp
+
+theorem Score.eqv_iff {a b : Score} : a.eqv b = true ↔ (a.cls = b.cls ∧ a.mag = b.mag) := by
+  simp [Score.eqv]
 
 theorem Score.lt_irrefl (a : Score) : a.lt a = false := by
-  cases a <;> simp [Score.lt]
+  rw [Score.lt_false_iff]; omega
 
 theorem Score.lt_trans {a b c : Score} (h1 : a.lt b = true) (h2 : b.lt c = true) : a.lt c = true := by
-  cases a <;> cases b <;> cases c <;> simp_all [Score.lt] <;> omega
-
-theorem Score.lt_total {a b : Score} (h1 : a.lt b = false) (h2 : b.lt a = false) : a = b := by
-  cases a <;> cases b <;> simp_all [Score.lt] <;> omega
+  rw [Score.lt_iff] at *; omega
 
 theorem Score.lt_asymm {a b : Score} (h : a.lt b = true) : b.lt a = false := by
-  cases hb : b.lt a
-  · rfl
-  · have := Score.lt_trans h hb
-    simp [Score.lt_irrefl] at this
+  rw [Score.lt_iff] at h; rw [Score.lt_false_iff]; omega
+
+/-- neither below the other = equal as f64 (not necessarily the same value: ±0) -/
+theorem Score.eqv_of_not_lt {a b : Score} (h1 : a.lt b = false) (h2 : b.lt a = false) : a.eqv b = true := by
+  rw [Score.lt_false_iff] at h1 h2; rw [Score.eqv_iff]; omega
+
+theorem Score.eqv_refl (a : Score) : a.eqv a = true := by rw [Score.eqv_iff]; omega
+theorem Score.eqv_symm {a b : Score} (h : a.eqv b = true) : b.eqv a = true := by
+  rw [Score.eqv_iff] at *; omega
+theorem Score.eqv_trans {a b c : Score} (h1 : a.eqv b = true) (h2 : b.eqv c = true) : a.eqv c = true := by
+  rw [Score.eqv_iff] at *; omega
+theorem Score.lt_of_lt_of_eqv {a b c : Score} (h1 : a.lt b = true) (h2 : b.eqv c = true) : a.lt c = true := by
+  rw [Score.eqv_iff] at h2; rw [Score.lt_iff] at *; omega
+theorem Score.lt_of_eqv_of_lt {a b c : Score} (h1 : a.eqv b = true) (h2 : b.lt c = true) : a.lt c = true := by
+  rw [Score.eqv_iff] at h1; rw [Score.lt_iff] at *; omega
+theorem Score.not_lt_of_eqv {a b : Score} (h : a.eqv b = true) : a.lt b = false := by
+  rw [Score.eqv_iff] at h; rw [Score.lt_false_iff]; omega
+
+/-- the value is determined by its f64 equality class and the zero flag -/
+theorem Score.eq_of_eqv_of_zz {a b : Score} (h : a.eqv b = true) (hz : a.zz = b.zz) : a = b := by
+  rw [Score.eqv_iff] at h
+  cases a <;> cases b <;> simp_all [Score.cls, Score.mag, Score.zz]
 
 /-- `a ≤ b < c → a < c` and friends, for the score filters. -/
 theorem Score.le_lt_trans {a b c : Score} (h1 : a.le b = true) (h2 : b.lt c = true) : a.lt c = true := by
-  cases a <;> cases b <;> cases c <;> simp_all [Score.lt, Score.le] <;> omega
+  simp only [Score.le, Bool.not_eq_true'] at h1
+  rw [Score.lt_false_iff] at h1; rw [Score.lt_iff] at *; omega
 
 theorem Score.le_trans {a b c : Score} (h1 : a.le b = true) (h2 : b.le c = true) : a.le c = true := by
-  cases a <;> cases b <;> cases c <;> simp_all [Score.lt, Score.le] <;> omega
+  simp only [Score.le, Bool.not_eq_true'] at *
+  rw [Score.lt_false_iff] at *; omega
 
 theorem Score.le_of_lt {a b : Score} (h : a.lt b = true) : a.le b = true := by
   simp [Score.le, Score.lt_asymm h]
+
+theorem Score.le_of_eqv {a b : Score} (h : a.eqv b = true) : a.le b = true := by
+  simp [Score.le, Score.not_lt_of_eqv (Score.eqv_symm h)]
 
 theorem Score.le_refl (a : Score) : a.le a = true := by simp [Score.le, Score.lt_irrefl]
 
@@ -86,21 +117,7 @@ theorem StrictTotal.ne {α : Type} {lt : α → α → Bool} (st : StrictTotal l
     (h : lt a b = true) : a ≠ b := by
   intro e; subst e; simp [st.irrefl] at h
 
-theorem entLt_strictTotal : StrictTotal entLt where
-  irrefl a := by simp [entLt, Score.lt_irrefl, bytesLt_irrefl]
-  trans a b c h1 h2 := by
-    simp only [entLt, Bool.or_eq_true, Bool.and_eq_true, decide_eq_true_eq] at h1 h2 ⊢
-    rcases h1 with h1 | ⟨e1, h1⟩ <;> rcases h2 with h2 | ⟨e2, h2⟩
-    · left; exact Score.lt_trans h1 h2
-    · left; rw [← e2]; exact h1
-    · left; rw [e1]; exact h2
-    · right; exact ⟨e1.trans e2, bytesLt_trans h1 h2⟩
-  total a b h1 h2 := by
-    simp only [entLt, Bool.or_eq_false_iff, Bool.and_eq_false_iff, decide_eq_false_iff_not] at h1 h2
-    have e : a.1 = b.1 := Score.lt_total h1.1 h2.1
-    have t1 : bytesLt a.2 b.2 = false := by rcases h1.2 with h | h; exact absurd e h; exact h
-    have t2 : bytesLt b.2 a.2 = false := by rcases h2.2 with h | h; exact absurd e.symm h; exact h
-    exact Prod.ext e (bytesLt_total t1 t2)
+/-! NaN joins the order as the greatest class (the `None` arm of `compare_nodes`) -/
 
 theorem CScore.lt_irrefl (a : CScore) : a.lt a = false := by
   cases a <;> simp [CScore.lt, Score.lt_irrefl]
@@ -109,29 +126,87 @@ theorem CScore.lt_trans {a b c : CScore} (h1 : a.lt b = true) (h2 : b.lt c = tru
   cases a <;> cases b <;> cases c <;> simp_all [CScore.lt]
   exact Score.lt_trans h1 h2
 
-theorem CScore.lt_total {a b : CScore} (h1 : a.lt b = false) (h2 : b.lt a = false) : a = b := by
+theorem CScore.lt_asymm {a b : CScore} (h : a.lt b = true) : b.lt a = false := by
   cases a <;> cases b <;> simp_all [CScore.lt]
-  exact Score.lt_total h1 h2
+  exact Score.lt_asymm h
 
-/-- `compare_nodes` is a strict total order on `(f64, key)` even with NaN present. -/
+theorem CScore.eqv_of_not_lt {a b : CScore} (h1 : a.lt b = false) (h2 : b.lt a = false) : a.eqv b = true := by
+  cases a <;> cases b <;> simp_all [CScore.lt, CScore.eqv]
+  exact Score.eqv_of_not_lt h1 h2
+
+theorem CScore.eqv_refl (a : CScore) : a.eqv a = true := by
+  cases a <;> simp [CScore.eqv, Score.eqv_refl]
+theorem CScore.eqv_symm {a b : CScore} (h : a.eqv b = true) : b.eqv a = true := by
+  cases a <;> cases b <;> simp_all [CScore.eqv]
+  exact Score.eqv_symm h
+theorem CScore.eqv_trans {a b c : CScore} (h1 : a.eqv b = true) (h2 : b.eqv c = true) : a.eqv c = true := by
+  cases a <;> cases b <;> cases c <;> simp_all [CScore.eqv]
+  exact Score.eqv_trans h1 h2
+theorem CScore.lt_of_lt_of_eqv {a b c : CScore} (h1 : a.lt b = true) (h2 : b.eqv c = true) : a.lt c = true := by
+  cases a <;> cases b <;> cases c <;> simp_all [CScore.lt, CScore.eqv]
+  exact Score.lt_of_lt_of_eqv h1 h2
+theorem CScore.lt_of_eqv_of_lt {a b c : CScore} (h1 : a.eqv b = true) (h2 : b.lt c = true) : a.lt c = true := by
+  cases a <;> cases b <;> cases c <;> simp_all [CScore.lt, CScore.eqv]
+  exact Score.lt_of_eqv_of_lt h1 h2
+theorem CScore.not_lt_of_eqv {a b : CScore} (h : a.eqv b = true) : a.lt b = false := by
+  cases a <;> cases b <;> simp_all [CScore.lt, CScore.eqv]
+  exact Score.not_lt_of_eqv h
+theorem CScore.eq_of_eqv_of_zz {a b : CScore} (h : a.eqv b = true) (hz : a.zz = b.zz) : a = b := by
+  cases a <;> cases b <;> simp_all [CScore.eqv, CScore.zz]
+  exact Score.eq_of_eqv_of_zz h hz
+
+/-- The proof order on `(f64, key)`: `compare_nodes` refined by the sign of zero of the same member —
+    a strict total order even with NaN present. -/
 theorem centLt_strictTotal : StrictTotal centLt where
   irrefl a := by simp [centLt, CScore.lt_irrefl, bytesLt_irrefl]
   trans a b c h1 h2 := by
     simp only [centLt, Bool.or_eq_true, Bool.and_eq_true, decide_eq_true_eq] at h1 h2 ⊢
     rcases h1 with h1 | ⟨e1, h1⟩ <;> rcases h2 with h2 | ⟨e2, h2⟩
     · left; exact CScore.lt_trans h1 h2
-    · left; rw [← e2]; exact h1
-    · left; rw [e1]; exact h2
-    · right; exact ⟨e1.trans e2, bytesLt_trans h1 h2⟩
+    · left; exact CScore.lt_of_lt_of_eqv h1 e2
+    · left; exact CScore.lt_of_eqv_of_lt e1 h2
+    · right
+      refine ⟨CScore.eqv_trans e1 e2, ?_⟩
+      rcases h1 with h1 | ⟨m1, z1⟩ <;> rcases h2 with h2 | ⟨m2, z2⟩
+      · left; exact bytesLt_trans h1 h2
+      · left; rw [← m2]; exact h1
+      · left; rw [m1]; exact h2
+      · right; exact ⟨m1.trans m2, by omega⟩
   total a b h1 h2 := by
     simp only [centLt, Bool.or_eq_false_iff, Bool.and_eq_false_iff, decide_eq_false_iff_not] at h1 h2
-    have e : a.1 = b.1 := CScore.lt_total h1.1 h2.1
-    have t1 : bytesLt a.2 b.2 = false := by rcases h1.2 with h | h; exact absurd e h; exact h
-    have t2 : bytesLt b.2 a.2 = false := by rcases h2.2 with h | h; exact absurd e.symm h; exact h
-    exact Prod.ext e (bytesLt_total t1 t2)
+    have e : a.1.eqv b.1 = true := CScore.eqv_of_not_lt h1.1 h2.1
+    have e' : b.1.eqv a.1 = true := CScore.eqv_symm e
+    have t1 := h1.2.resolve_left (by simp [e])
+    have t2 := h2.2.resolve_left (by simp [e'])
+    have hm : a.2 = b.2 := bytesLt_total t1.1 t2.1
+    have z1 := t1.2.resolve_left (by simp [hm])
+    have z2 := t2.2.resolve_left (by simp [hm])
+    exact Prod.ext (CScore.eq_of_eqv_of_zz e (by omega)) hm
 
-@[simp] theorem centLt_lift (a b : Entry) : centLt (lift a) (lift b) = entLt a b := by
-  simp [centLt, entLt, lift, CScore.lt]
+@[simp] theorem centLt_lift (a b : Entry) : centLt (lift a) (lift b) = entLt a b := rfl
+
+theorem lift_injective {a b : Entry} (h : lift a = lift b) : a = b := by
+  simp only [lift, Prod.mk.injEq, CScore.num.injEq] at h
+  exact Prod.ext h.1 h.2
+
+theorem entLt_strictTotal : StrictTotal entLt where
+  irrefl a := by rw [← centLt_lift]; exact centLt_strictTotal.irrefl _
+  trans a b c h1 h2 := by
+    rw [← centLt_lift] at *; exact centLt_strictTotal.trans _ _ _ h1 h2
+  total a b h1 h2 := by
+    rw [← centLt_lift] at *; exact lift_injective (centLt_strictTotal.total _ _ h1 h2)
+
+/-- Between two DIFFERENT members the proof order is exactly the code's comparator / the prescribed
+    (score, member) order: the zero-sign stage is never reached. -/
+theorem centLt_of_ne_member {a b : CEntry} (h : a.2 ≠ b.2) : centLt a b = ccmpLt a b := by
+  simp [centLt, ccmpLt, h]
+
+theorem ccmpLt_irrefl (a : CEntry) : ccmpLt a a = false := by
+  simp [ccmpLt, CScore.lt_irrefl, bytesLt_irrefl]
+
+theorem entLt_of_ne_member {a b : Entry} (h : a.2 ≠ b.2) :
+    entLt a b = (a.1.lt b.1 || (a.1.eqv b.1 && bytesLt a.2 b.2)) := by
+  simp [entLt, h]
 
 /-! ### Sorted insertion -/
 
@@ -238,6 +313,13 @@ theorem sublist_insSorted_both (st : StrictTotal lt) {x : α} {u l : List α}
     · exact (hs.cons_cons a).cons_cons x
 
 /-- Sorted insertion commutes with an order embedding. -/
+theorem insSorted_congr {lt' : α → α → Bool} {x : α} {l : List α} (h : ∀ y ∈ l, lt y x = lt' y x) :
+    insSorted lt x l = insSorted lt' x l := by
+  induction l with
+  | nil => rfl
+  | cons z zs ih =>
+    simp only [insSorted, h z List.mem_cons_self, ih (fun y hy => h y (List.mem_cons_of_mem _ hy))]
+
 theorem insSorted_map {β : Type} {lt' : β → β → Bool} (f : α → β)
     (hf : ∀ a b, lt' (f a) (f b) = lt a b) (x : α) (l : List α) :
     insSorted lt' (f x) (l.map f) = (insSorted lt x l).map f := by
